@@ -186,7 +186,10 @@ pub fn check_case(case: &FunCase, prop: Prop, rep: &mut Report) {
     let fun = match pipeline::parse_check(&case.src) {
         Ok(f) => f,
         Err(e) => {
-            rep.machinery(format!("generated program {} is rejected: {e:?}", case.name));
+            // a well-typed-by-construction program that the front end rejects is C15's business
+            // (its positive side reports it); here the program is outside the premise
+            rep.count("skipped_rejected_by_front_end", 1);
+            rep.notes.push(format!("front end rejects {} ({})", case.name, format!("{e:?}").chars().take(80).collect::<String>()));
             return;
         }
     };
